@@ -31,8 +31,20 @@ static uint32_t a_v34[NMSG]; static int64_t a_v52[NMSG], a_v122[NMSG];
 /* encoder log: one record per Message::encode call (= per transmitted message) */
 static uint32_t e_n, e_msg[NREC], e_v34[NREC]; static uint8_t e_has34[NREC], e_has43[NREC], e_v43[NREC], e_has122[NREC], e_has52[NREC]; static int64_t e_v52[NREC], e_v122[NREC];
 /* persister log */
-static uint32_t p_n, p_seq[NREC], p_len[NREC]; static uint8_t p_dat[NREC][ENC_MAX]; static uint8_t p_toolong;
-static uint32_t c_n, c_snd, c_rcv; static uint8_t c_valid;      /* control record */
+static uint32_t p_n, p_seq[NREC], p_len[NREC]; static uint8_t p_dat[NREC][ENC_MAX]; static uint8_t p_toolong, p_ok[NREC];
+/* control record: (c_valid, c_snd, c_rcv) = what the store holds = the last ACCEPTED control put; (c_att_*) = the last attempted one.
+   Contract of Persister::put (both overloads): may refuse and return false (e.g. occupied number, closed store); the harness
+   chooses every result symbolically (-DPUTS_SUCCEED pins them to true) and records the attempt either way. */
+static uint32_t c_n, c_snd, c_rcv; static uint8_t c_valid;
+static uint32_t c_att_n, c_att_snd, c_att_rcv; static uint8_t c_att_ok, c_ok[NREC];
+uint8_t cx_put_ok[NREC], cx_putc_ok[NREC];
+/* after an operation: the session asked the store to hold exactly (ns, nr) in its last control put (or, if it made none, the
+   record already holds them), and whenever that last put was accepted the stored record equals them */
+static int ctl_matches(uint32_t ns, uint32_t nr)
+{
+  if (c_att_n == 0) return c_valid && c_snd == ns && c_rcv == nr;
+  return c_att_snd == ns && c_att_rcv == nr && (!c_att_ok || (c_valid && c_snd == ns && c_rcv == nr));
+}
 static int midx(void *m) { for (int i = 0; i < NMSG; i++) if (m == (void*)&the_msg[i]) return i; __CPROVER_assert(0, "world: unknown message object"); return 0; }
 static int hidx(void *h) { for (int i = 0; i < NMSG; i++) if (h == (void*)&the_hdr[i]) return i; __CPROVER_assert(0, "world: unknown header object"); return 0; }
 static int tslot(uint32_t fnum) { switch (fnum) { case 34: return T34; case 43: return T43; case 49: return T49; case 56: return T56; case 52: return T52; case 122: return T122; } __CPROVER_assert(0, "world: header tag outside the abstract header"); return 0; }
@@ -71,9 +83,23 @@ uint8_t x_vf_rec_put(uint32_t seq, uint8_t *d, uint32_t len)
   __CPROVER_assert(p_n < NREC, "world: persister log large enough");
   p_seq[k] = seq; p_len[k] = len; if (len > ENC_MAX) p_toolong = 1;
   for (uint32_t b = 0; b < ENC_MAX; b++) if (b < len) p_dat[k][b] = d[b];
-  p_n++; return 1;
+  uint8_t ok = nondet_u8() & 1;
+#ifdef PUTS_SUCCEED
+  ok = 1;
+#endif
+  p_ok[k] = ok; cx_put_ok[k] = ok; p_n++; return ok;
 }
-uint8_t x_vf_rec_putc(uint32_t s, uint32_t r) { c_snd = s; c_rcv = r; c_valid = 1; c_n++; return 1; }
+uint8_t x_vf_rec_putc(uint32_t s, uint32_t r)
+{
+  uint8_t ok = nondet_u8() & 1;
+#ifdef PUTS_SUCCEED
+  ok = 1;
+#endif
+  if (c_att_n < NREC) { c_ok[c_att_n] = ok; cx_putc_ok[c_att_n] = ok; }
+  c_att_snd = s; c_att_rcv = r; c_att_ok = ok; c_att_n++; c_n++;
+  if (ok) { c_snd = s; c_rcv = r; c_valid = 1; }
+  return ok;
+}
 uint8_t x_vf_rec_getc(uint32_t *s, uint32_t *r) { if (!c_valid) return 0; *s = c_snd; *r = c_rcv; return 1; }
 static const uint8_t ty_app[] = "D", ty_hb[] = "0", ty_sr[] = "4", ty_lo[] = "5";
 enum { K_APP, K_HEARTBEAT, K_SEQRESET, K_LOGOUT, NKIND };
